@@ -316,6 +316,34 @@ def gen_cases(r, tier):
         for body in ["61 62 %s", "%s 61 62", "61 62 %s 63", "61 %s 62 %s 63", "61 %s %s 62", "( 61 | 62 ) %s 63", "61 %s ( 62 | 63 )", "61 ( 62 %s 63 | 64 ) 65", "61 ( 62 | 63 %s ) 64",
                      "61 ( %s 62 | 63 ) 64", "61 ?? %s ?? 62", "61 %s ~62", "6? %s ?2"]:
             add('rule cp { strings: $a = { %s } condition: $a }' % body.replace("%s", hj), "chaining-point")
+    # ---- size boundaries of compiled regexps / hex strings: an alternation whose branch compiles to ~32 KiB / ~64 KiB (split offsets are 16-bit signed),
+    # long concatenations; a source that compiles must also be scannable (the harness scans a small buffer with every accepted rule set)
+    for KK in (900, 960, 985, 990, 992, 993, 994, 1000, 1100, 1500, 1900, 1980, 1985, 1986, 1990, 2000, 2100, 3000):
+        big = "[a-c]" * KK
+        for rx in ("(%s|x)y" % big, "(x|%s)y" % big, "%s|x" % big, "x|%s" % big, "((%s|x)|z)w" % big, "(%s)?x" % big, "(%s)*x" % big, "a(%s|%s)b" % (big[:len(big) // 2], big[len(big) // 2:])):
+            add('rule sz { strings: $a = /%s/ condition: $a }' % rx, "compiled-size-boundary", "S")
+        add('rule sz { condition: "abc" matches /(%s|x)y/ }' % big, "compiled-size-boundary", "S")
+    for KK in (1000, 2000, 4000, 8000, 16000, 32000, 33000):
+        add('rule sz { strings: $a = { ( %s | 00 ) 01 } condition: $a }' % ("4? " * KK), "compiled-size-boundary", "S")
+        add('rule sz { strings: $a = { 01 ( 00 | %s ) } condition: $a }' % ("?? 41 " * (KK // 2)), "compiled-size-boundary", "S")
+    # ---- arena growth flavour: every allocation moves the buffers (hook yr_verif_arena_always_move) / 64-byte initial buffers: the valid corpus, chained
+    # strings (several fragments), many strings / rules, loops, includes — a pointer the compiler keeps across an allocation faults under ASan
+    for src in K.RULES:
+        add(src, "arena-growth", None, opt="g")
+        add(src, "arena-growth", None, opt="i")
+    for j in (".{0,300}?", ".{250,}?", ".{300}"):
+        for body in ("abc%sdef", "abc%sdef%sghi", "a%sb%sc%sd", "(abc|xyz)%sdef"):
+            for o in ("g", "i", "gi"):
+                add('rule ag { strings: $a = /%s/ $b = "tail" $c = /%s/ wide condition: any of them }' % (body.replace("%s", j), body.replace("%s", j)), "arena-growth", "S", opt=o)
+    for hj in ("[250-300]", "[201-]", "[1000-2000]"):
+        for body in ("61 62 %s 63 64", "61 %s 62 %s 63", "61 62 %s 63 64 %s 65 66 %s 67"):
+            for o in ("g", "i"):
+                add('rule ag { strings: $x = "head" $a = { %s } $b = { %s } condition: any of them } rule ag2 { strings: $a = { %s } condition: $a and ag }' %
+                    (body.replace("%s", hj), body.replace("%s", hj), body.replace("%s", hj)), "arena-growth", "S", opt=o)
+    add('rule ag { strings: %s condition: any of them }' % " ".join('$s%d = "str%d"' % (i, i) for i in range(300)), "arena-growth", "S", opt="g")
+    add(" ".join('rule many%d { strings: $a = "x%d" condition: $a }' % (i, i) for i in range(200)), "arena-growth", "S", opt="g")
+    add('import "pe" rule a { condition: for any s in pe.sections : ( for any i in (1..3) : ( s.raw_data_size > i ) ) }', "arena-growth", "S", opt="gi", units=['rule b { strings: $a = /abc.{0,300}?def/ condition: $a }'])
+    add('include "inc2" rule t { condition: inc2_rule }', "arena-growth", "S", opt="gi")
     # oversized tokens around YR_LEX_BUF_SIZE (8192) and far beyond
     L = 8192
     for n in [L - 3, L - 2, L - 1, L, L + 1, L + 2, 2 * L, 70000] + ([] if quick else [1 << 20]):
